@@ -1,4 +1,5 @@
 import CCT.Lemmas.VerifySignable
+import CCT.Model.Diagnostics
 /-!
 # C01 — threshold soundness: no acceptance without enough valid authorized signers
 
@@ -68,6 +69,30 @@ theorem invalid_never_counts_gpg (C : CryptoFns) (auth : List PStr) (data : Byte
     (h : C.verify (unhex k) (gpgDigest C data (unhex (strOf (entryField (ps! "other_headers") sig))))
        (unhex (strOf (entryField (ps! "signature") sig))) = false) : ¬ Counts C true auth data k sig := by
   rintro ⟨_, _, h3⟩; simp at h3; rw [h] at h3; exact absurd h3.2 (by simp)
+
+/-- **soundness does not depend on a diagnostic having been printed**: whatever standard output does — takes text, fails on every write, is absent — an
+envelope accepted under it is accepted by `verify_signable` proper (and so has threshold-many valid authorized signers: `verifySignable_sound`); on a failing
+standard output a call either gives its usual answer or fails with the error of the `print` — it never turns a rejection into an acceptance -/
+theorem sound_under_any_stdout (C : CryptoFns) (st : Stdout) (env keys thr : J) (gpg : Bool)
+    (h : verifySignableUnder C st env keys thr gpg = .ok ()) : verifySignableJ C env keys thr gpg = .ok () := by
+  unfold verifySignableUnder at h
+  split at h
+  · cases h
+  · split at h
+    · cases h
+    · exact h
+  · exact h
+
+theorem absent_stdout_same_verdict (C : CryptoFns) (env keys thr : J) (gpg : Bool) :
+    verifySignableUnder C .absent env keys thr gpg = verifySignableJ C env keys thr gpg := by
+  unfold verifySignableUnder; split <;> simp_all
+
+theorem failing_stdout_outcomes (C : CryptoFns) (env keys thr : J) (gpg : Bool) :
+    verifySignableUnder C .failing env keys thr gpg = verifySignableJ C env keys thr gpg ∨ verifySignableUnder C .failing env keys thr gpg = .error .os := by
+  unfold verifySignableUnder
+  cases hr : verifySignableJ C env keys thr gpg with
+  | ok u => by_cases hn : anyNote C env keys gpg = true <;> simp [hn]
+  | error e => cases e <;> (by_cases hn : anyNote C env keys gpg = true <;> simp [hn])
 
 /-- **the model's per-entry case split agrees with the declarative notion**: an entry is classified `counts` exactly when it counts (canonical key, authorized,
 shape of the mode, primitive accepts) — and the loop never fails on an entry (`error` does not occur).  The driver reports this class for every entry of
